@@ -11,7 +11,7 @@ import ast
 
 from ..cfg import known_falsy
 from ..model import self_attr, unparse, walk_body_shallow
-from .util import (call_name, call_recv, calls_in, guarded_reach, need, node_assign_value, node_writes_attr, norm,
+from .util import (reaching_defs, call_name, call_recv, calls_in, guarded_reach, need, node_assign_value, node_writes_attr, norm,
                    registrations, where, aliases_of)
 
 TECHNIQUE = "registration-order check, paired-update dominance, guarded call-graph reachability from stop(), " \
@@ -176,10 +176,24 @@ def run(ctx):
     rm = [n for n in ccf.nodes if any(call_name(c) == "remove" and call_recv(c) == "self._batch_reqs" for c in n.calls())]
     need(len(rm) == 1, "dequeue in canceller not found")
     dparam = canc.params[1]
-    matched = any(("%s.deferred == %s" % (unparse(rm[0].calls()[0].args[0]), dparam), True) in fcc[rm[0].id]
-                  or ("%s == %s.deferred" % (dparam, unparse(rm[0].calls()[0].args[0])), True) in fcc[rm[0].id]
-                  or ("%s.deferred is %s" % (unparse(rm[0].calls()[0].args[0]), dparam), True) in fcc[rm[0].id]
-                  for _ in [0])
+    def _is_match(facts, who):
+        return ("%s.deferred == %s" % (who, dparam), True) in facts or ("%s == %s.deferred" % (dparam, who), True) in facts or (
+            "%s.deferred is %s" % (who, dparam), True) in facts
+
+    rarg = [c for c in rm[0].calls() if call_name(c) == "remove"][0].args[0]
+    matched = _is_match(fcc[rm[0].id], unparse(rarg))
+    if not matched and isinstance(rarg, ast.Name):
+        # the removed request was picked earlier (find first, then handle): every definition of the local that reaches
+        # the removal - other than a None initialisation excluded by an `is not None` guard - was made where the match held
+        defs = reaching_defs(ccf, rm[0].id, rarg.id)
+        live = []
+        for dn in defs:
+            stn = ccf.nodes[dn].stmt
+            v = stn.value if isinstance(stn, ast.Assign) and len(stn.targets) == 1 else None
+            if isinstance(v, ast.Constant) and v.value is None and ("%s is None" % rarg.id, False) in fcc[rm[0].id]:
+                continue
+            live.append((dn, v))
+        matched = bool(live) and all(isinstance(v, ast.Name) and _is_match(fcc[dn], v.id) for dn, v in live)
     r.check(matched, "%s#dequeue-matches" % canc.qname, "the request removed from the queue is not the one whose Deferred is cancelled",
             where(canc, rm[0].stmt))
     ebs = [(n, c) for n in ccf.nodes for c in n.calls() if call_name(c) == "errback" and call_recv(c) == dparam]
